@@ -51,5 +51,19 @@ fixed("C03","37ee094","panic ir/component.rs:Component::parse_comp:range end ind
 fixed("C03","69c00f7","abort SIGSEGV (component) nested-components","2048 nested components overflowed the stack in Component::parse")
 known("C03","abort SIGSEGV (component) nested-component-types","a type section with >= ~16000 nested component/instance types (49 KB) overflows the 8 MiB stack inside wasmparser 0.235's recursive type reader, reached through Component::parse (wasmparser's own Validator overflows on the same input); depth 4096 is fine. Not repairable inside wirm without running the parser on a larger stack.",
       {"seed":"ctype-ladder-16384","parser":"Component::parse"})
+
+fixed("C19","c01e8b7","event block-exit if *","block-exit probe of an if fired at the end of a construct nested in the then-arm (or not at all) instead of when the arm fell through (witness: if A { if B {} } with the probe on the outer if, input a=1,b=0)")
+fixed("C01","f290405","invalid-output type mismatch: expected (ref exn), found exnref","nullable exnref/nullexnref lost nullability in params/results/locals/fields/block types")
+fixed("C02","f290405","text-differs {exnref} -> {exn,ref}","nullable exnref/nullexnref lost nullability in params/results/locals/fields/block types")
+known("C20","event semantic-after br*fn-label* missing","a semantic-after probe on a br/br_if/br_table that targets the function body label never fires: its body is scheduled 'after' the function's final end, where the encoder drops after-code",
+      {"program":"[Block [Br 1]] (br to the function label)","plan":"semantic-after on the br","input":"any"})
+known("C20","event semantic-after br->* in-loop extra","the flag that guards a branch's semantic-after body is set before the branch and only cleared on fall-through: after a taken branch it stays set, so a later arrival at the same label (next loop iteration, branch not executed) runs the body again",
+      {"program":"[Loop [Block [If Ctr [Br 1]]]]","plan":"semantic-after on the br","input":"(0,0): 2 executions, 3 firings"})
+known("C20","event semantic-after br_if->* in-loop extra","same stale flag as for br (taken br_if in one iteration, not executed in the next)",
+      {"program":"[Loop [Block [If Ctr [BrIf A 1]]]]","plan":"semantic-after on the br_if"})
+known("C20","event semantic-after br_table->* extra","same stale flag: a br_table's body is registered at every target label; after arriving at an inner target the flag is still set when control reaches the outer target's end",
+      {"program":"[Block [Block [BrTable A [0] 1]]]","plan":"semantic-after on the br_table","input":"(0,0): 1 execution, 2 firings"})
+known("C20","invalid-instrumented-module else found outside of an `if` block [*semantic-after@br*","three or more flagged bodies resolved at one end are chained as if/else/else: the second else has no matching if and the module does not validate (a br_table contributes one body per target, so two probes suffice)",
+      {"program":"[Block [Block [BrTable A [0] 1] ...]]","plan":"two semantic-after probes whose targets meet at one end"})
 json.dump(F,open("/verif/known_findings.json","w"),indent=1)
 print(len(F),"entries")
